@@ -83,6 +83,12 @@ impl StyleSheetOutput {
         );
         self.s += s;
         self.utf16_len += str::encode_utf16(s).count() as u32;
+        #[cfg(feature = "verif-hooks")]
+        crate::verif::emit(crate::verif::Event::CssAppend {
+            kind: "verbatim",
+            utf16_len: self.utf16_len,
+            out: &self.s,
+        });
     }
 
     pub(crate) fn append_token(&mut self, token: StepToken, src: Option<Token>) {
